@@ -304,11 +304,11 @@ PROPS = {
                        "interest bitmap, every position) re-checks ib_rank1 / structural_index on the compiled code and supplies replayable "
                        "counterexamples when a rewrite changes the loop structure the extraction is keyed to.",
         "trusted_base": COMMON_TRUST + ["Verus 0.2026.09.13 + Z3", "seam R4: BalancedParens::find_close contract (unit c04_find), scan_select (c01_scan), select_in_word (Kani C02)"],
-        "assumptions": ["simple_wf (interest bits mark structural characters; BP pair j is 11/00/01 for the j-th structural character being an "
-                        "open/close/delimiter) is now DERIVED: unit c05_simple proves lemma_reference_is_simple_wf (is_reference, the builders' "
-                        "postcondition, implies simple_wf_raw -- the same spec fn, shared through speclib_simplewf.rs -- for texts up to 2^29 bytes); "
-                        "what remains read, not extracted, is the 3-statement plumbing of SimpleJsonIndex::build (count_bp_bits = 2 * sum of "
-                        "count_ones over the IB words, BalancedParens::new(semi.bp, that count), ib_len = json.len())",
+        "assumptions": ["simple_wf is DERIVED end to end: unit c05_simple proves, on the real text of SimpleJsonIndex::build (runtime dispatcher -> AVX2 entry "
+                        "point / SSE2 engine -> count_bp_bits -> BalancedParens::new), that the index it returns satisfies simple_wf_raw -- the very "
+                        "spec fn the navigation unit assumes (shared through speclib_simplewf.rs) -- for every text up to 2^29 bytes. Stubs on that "
+                        "path: the SSE2 builder's contract (proved in c05_simple_sse2), count_bp_bits (`iter().map(count_ones).sum() * 2`, iterator "
+                        "adapters), BalancedParens::new (keeps the bits below len; its directories are unit c04_build), the cpuid macro (arbitrary)",
                         "validity of the document is not used: the statements hold for every byte string and coincide with the JSON reading "
                         "of 'matching bracket' and 'value extent' on valid documents (that coincidence relies on the RFC 8259 grammar and is not proved)",
                         "Children / StructuralPositions iterators and from_parts/build plumbing not extracted; W monomorphised to Vec<u64>"],
